@@ -70,8 +70,10 @@ PROPS = {
     'C08': _hyb('C08', 'format_bonding == fold of (order symbol + [descriptor]) over the list, every descriptor in order',
                 'read_fragments(write_cgsmiles_fragments(F)) isomorphic to F incl. descriptors; complete strings written from resolver inputs resolve to the same molecule.', _T_EXT),
     'C09': _hyb('C09', 'rebuild_h_atoms: atoms that were there keep membership, fragment name and weight (explicitly written hydrogens keep their own '
-                'annotations, zero included) and every completed hydrogen carries those of an atom it is bonded to (pysmiles valence filling assumed)',
-                'independent valence table + hydrogen attribute inheritance on every all-atom resolver output of the C01/C10 generators plus polymers, grafts, charged and aromatic units, weight-0 annotations, hydrogen-first orders.', _T_EXT),
+                'annotations, zero included) and every completed hydrogen carries those of an atom it is bonded to; elements of existing atoms are kept, added atoms are hydrogens '
+                '(pysmiles valence filling assumed); compute_mass completes hydrogens on a COPY (the sampler\'s templates are not modified)',
+                'independent valence table + hydrogen attribute inheritance on every all-atom resolver output of the C01/C10 generators plus polymers, grafts, charged and aromatic units, '
+                'weight-0 annotations, hydrogen-first orders, written [nH] hydrogens, and all-atom sampler outputs built without a mass table.', _T_EXT),
     'C10': _hyb('C10', 'squash_atoms: every merge is between two atoms that still exist and differ (networkx.contracted_nodes assumed), no atom that was not merged '
                 'away is lost, the merged atom\'s membership is the concatenation of both; and the compatibility relation (compatible)',
                 'resolve(overlapping) isomorphic to resolve(disjoint), one atom fewer per shared pair, membership of merged atoms, over G2 with any subset of cuts shared.', _T_EXT),
@@ -90,12 +92,15 @@ PROPS = {
     'C16': _hyb('C16', 'merge_graphs (copy isomorphic to the template, membership), find_complementary_bonding_descriptor (every result eligible and complementary, '
                 'OSError iff none), find_open_bonds (node listed under a descriptor iff its list holds it) and add_fragment (exactly one copy and one bond per growth step, '
                 'between an existing atom and the copy of the drawn partner atom, complementary descriptors of equal order, bond order = that order, partner descriptor consumed; '
-                'with atomistic templates every atom of the grown molecule stays fit for hydrogen completion, so sample() calls rebuild_h_atoms inside its contract)',
+                'with atomistic templates every atom of the grown molecule stays fit for hydrogen completion, so sample() calls rebuild_h_atoms inside its contract) and '
+                'MoleculeSampler.__init__ (partner table sound and complete with respect to the templates\' descriptor lists)',
                 'connected tree of copies, complementary descriptors of equal order, no descriptor twice, canonical numbering, valence, over G4 sampler configurations.', _T_EXT),
     'C17': _hyb('C17', '_set_bond_order_defaults (list and dict variants), _select_bonding_operator (result is offered; with a non-empty table its reactivity is > 0; trusted random.choices), '
                 'add_fragment (a descriptor with reactivity 0 is never the growth site, a partner with conditional reactivity 0 is never chosen, terminal rule both ways) and '
                 'sample, coarse and all-atom mode (ghost sum of added fragment masses reaches the target and was below it before the last addition; every callee is called '
-                'inside its contract)',
+                'inside its contract), MoleculeSampler.__init__ (the partner table lists under each descriptor exactly the template atoms that carry it; with atomistic '
+                'fragments and no mass table every fragment gets a mass; OSError iff no masses and not all-atom) and compute_mass (works on a copy: the template is not modified; '
+                'positive for a non-empty fragment; pysmiles.PTE assumed)',
                 'target-weight rule, derived masses vs an independent table, zero reactivities never chosen, terminal rule, same seed => same molecule in and across processes.', _T_EXT),
     'C18': _hyb('C18', 'forward_map_molecule: bead position == sum(w_i x_i) / sum(w_i) over exactly the bead\'s own atoms (reals, per coordinate)',
                 'RDKit round trip with and without conformer, bonded atoms at bonding distance after embedding for all relabelings, weighted mean and translation equivariance.', _T_EXT),
